@@ -341,6 +341,37 @@ def _v8(ctx, R="C03-V8"):
     ctx.floor(R, 4)
 
 
+def _v9(ctx):
+    R = "C03-V9"
+    ctx.doc(R, "the 'big enough, do not track' estimate reads each Einsum's own view of the memory: a value computed from the loop variable of the per-Einsum loop is recomputed in every iteration (never kept behind an `is None` test on itself)")
+    MPK = "accelforge/mapper/FFM/_make_pmappings/make_pmappings.py"
+    fi = ctx.func(MPK, "get_memories_to_track", R)
+    cfg = ctx.cfg(fi)
+    n = 0
+    for lp in [s_ for s_ in fi.stmts() if isinstance(s_, ast.For) and "einsum2jobs" in norm(s_.iter)]:
+        variant = {x.id for x in ast.walk(lp.target) if isinstance(x, ast.Name)}
+        changed = True
+        body_assigns = [(st, t, v) for st in ast.walk(lp) if isinstance(st, (ast.Assign, ast.AnnAssign)) for t, v, _ in assigned_targets(st) if isinstance(t, ast.Name) and v is not None]
+        while changed:
+            changed = False
+            for st, t, v in body_assigns:
+                if t.id not in variant and any(isinstance(x, ast.Name) and x.id in variant for x in ast.walk(v)):
+                    variant.add(t.id)
+                    changed = True
+        for st, t, v in body_assigns:
+            if not any(isinstance(x, ast.Name) and x.id in variant for x in ast.walk(v)):
+                continue
+            sn = cfg.node_of(st)
+            if sn is None:
+                continue
+            n += 1
+            own = [norm(h.ast.test) for h, lab in cfg.control_conditions(sn) if h.kind == "if" and t.id in {x.id for x in ast.walk(h.ast.test) if isinstance(x, ast.Name)} and h.ast in list(ast.walk(lp))]
+            ctx.check(not own, R, fi, st, f"`{norm(st)[:80]}` depends on the Einsum of the iteration but is only executed under `{own[0] if own else ''}`: later Einsums reuse the first Einsum's object, "
+                      "so per-Einsum sizes / widths of the memory are ignored when deciding that it needs no capacity tracking", f"`{t.id}` recomputed for every Einsum")
+    ctx.require(n >= 2, R, f"loop-variant assignments examined: {n}")
+    ctx.floor(R, 2)
+
+
 def check(ctx):
     _v7(ctx)
     _v1(ctx)
@@ -349,6 +380,7 @@ def check(ctx):
     _v5(ctx)
     _v6(ctx)
     _v8(ctx)
+    _v9(ctx)
 
 
 _MERGE_LC = "        if not CHECK_CORRECTNESS:\n            result.limit_capacity(\n                next_shared_loop_index, ignored_resources=ignored_resources\n            )\n"
